@@ -94,6 +94,14 @@ Qed.
 Definition handle_op (o : op) : bool :=
   match o with OReserveNow _ | OReserve _ | ODropH _ _ => true | _ => false end.
 
+Lemma ex_add_hids : forall mx s id pending now, hids (fst (ex_add mx s id pending now)) = hids s.
+Proof.
+  intros mx s id pending now. unfold ex_add.
+  destruct (t_lookup id (tb s)) as [x|]; auto. destruct (pending && s_reserved x); auto.
+  destruct (t_get id now (tb s)); auto. destruct (s_expired x); auto.
+  destruct (x_add mx (s_exch x) _) as [[x' i]|]; reflexivity.
+Qed.
+
 Lemma step_hids_same : forall cap mx s o, handle_op o = false -> hids (fst (step cap mx s o)) = hids s.
 Proof.
   intros cap mx s o Ho. destruct o; try discriminate; cbn [step].
@@ -107,9 +115,7 @@ Proof.
   - reflexivity.
   - destruct (t_lookup id (tb s)) as [x|]; auto. destruct (s_reserved x); reflexivity.
   - reflexivity.
-  - destruct (t_lookup id (tb s)) as [x|]; auto. destruct (pending && s_reserved x); auto.
-    destruct (t_get id now (tb s)); auto. destruct (s_expired x); auto.
-    destruct (x_add mx (s_exch x) _) as [[x' i]|]; reflexivity.
+  - apply ex_add_hids.
   - destruct (t_lookup id (tb s)) as [x|]; auto.
     destruct (nth_error (s_exch x) xi) as [[[]|]|]; auto. destruct (t_get id now (tb s)); reflexivity.
   - destruct (t_lookup id (tb s)) as [x|]; auto.
@@ -119,6 +125,9 @@ Proof.
   - destruct (find_slot slot_retr (t_sess (tb s))) as [[id xi]|]; auto.
     destruct (find_slot slot_dropped (t_sess (tb s))) as [[id xi]|]; auto.
     destruct (t_get id now (tb s)); reflexivity.
+  - pose proof (ex_add_hids mx s id true now) as H. destruct (ex_add mx s id true now) as [s1 r].
+    cbn [fst] in H. destruct r; auto. destruct (c =? E_NOSPACE_EXCH); auto.
+  - reflexivity.
 Qed.
 
 Lemma step_hids_drop : forall cap mx s id now a,
